@@ -261,6 +261,23 @@ example : transGroupCert p2sEx s2pEx permsEx = true := by decide +kernel
 example : transGroupCert p2sEx s2pEx permsBad = false := by decide +kernel
 example : (mkTables (by omega) (by omega) p2sEx s2pEx permsEx).nsym 3 = 1 := by decide +kernel
 
+/-! ### locality of the passes (what a parallel loop over columns / rows / pairs may rely on) -/
+
+/-- the column-drift pass for column `(j,k,l)` reads only that column -/
+theorem colDrift_reads_only_its_column {n : Nat} (Φ Ψ : FC n K) (j : Fin n) (k l : Fin 3)
+    (h : ∀ i, Φ i j k l = Ψ i j k l) (i : Fin n) : colDrift Φ i j k l = colDrift Ψ i j k l := by
+  simp only [colDrift_apply, h]
+
+/-- the row-drift pass for row `(i,k,l)` reads only that row -/
+theorem rowDrift_reads_only_its_row {n : Nat} (Φ Ψ : FC n K) (i : Fin n) (k l : Fin 3)
+    (h : ∀ j, Φ i j k l = Ψ i j k l) (j : Fin n) : rowDrift Φ i j k l = rowDrift Ψ i j k l := by
+  simp only [rowDrift_apply, h]
+
+/-- the permutation average of entry `(i,j,k,l)` reads only that entry and its transposed partner -/
+theorem permSym_reads_only_the_pair {n : Nat} (Φ Ψ : FC n K) (i j : Fin n) (k l : Fin 3)
+    (h1 : Φ i j k l = Ψ i j k l) (h2 : Φ j i l k = Ψ j i l k) : permSym Φ i j k l = permSym Ψ i j k l := by
+  simp only [permSym_apply, h1, h2]
+
 /-- a two-atom array with a single non-zero entry (for the non-vacuity examples) -/
 def Φpin2 : FC 2 ℚ := fun i j k l => if i = 0 ∧ j = 1 ∧ k = 0 ∧ l = 1 then 1 else 0
 /-! ### description invariance -/
@@ -333,3 +350,6 @@ end PhononModel.C07
 #print axioms PhononModel.C07.nsym_choice_immaterial
 #print axioms PhononModel.C07.fullSym_relabel_invariant
 #print axioms PhononModel.C07.fullSym_frame_invariant
+#print axioms PhononModel.C07.colDrift_reads_only_its_column
+#print axioms PhononModel.C07.rowDrift_reads_only_its_row
+#print axioms PhononModel.C07.permSym_reads_only_the_pair
